@@ -6,7 +6,7 @@ from . import core, s4u
 from .platgen import Plat
 
 DRIVER = "s4u_model"
-EXT_VERSION = "model-ext-v1"     # must match drivers/s4u_ext_model.hpp: a stale binary is a harness error, not a verdict
+EXT_VERSION = "model-ext-v3"     # must match drivers/s4u_ext_model.hpp: a stale binary is a harness error, not a verdict
 PREC_T = 1e-9                    # precision/timing (default), Configuring_SimGrid.rst "Numerical Precision"
 PREC_W = 1e-5                    # precision/work-amount (default)
 T = s4u.T
@@ -88,7 +88,8 @@ def factor_values(spec, size):
     return res
 
 
-def comm_time(plat, src, dst, size, model="LV08", crosstraffic=None, gamma=None, lat_factor=None, bw_factor=None, rate=-1.0):
+def comm_time(plat, src, dst, size, model="LV08", crosstraffic=None, gamma=None, lat_factor=None, bw_factor=None, rate=-1.0,
+              loopback=None):
     """Documented time of an isolated communication (Models.rst: raw / CM02 / LV08 sections; option docs):
 
         T = latency * latency_factor(size) + size / B
@@ -107,8 +108,8 @@ def comm_time(plat, src, dst, size, model="LV08", crosstraffic=None, gamma=None,
     lfs = factor_values(lat_factor if lat_factor is not None else lf_spec, size)
     bfs = factor_values(bw_factor if bw_factor is not None else bf_spec, size)
     if src == dst and plat.route(src, dst) is None:
-        lat = LOOPBACK_LAT
-        phys = LOOPBACK_BW
+        # the implicit loopback link: one FATPIPE link (network/loopback-bw, network/loopback-lat), never shared
+        phys, lat = loopback if loopback else (LOOPBACK_BW, LOOPBACK_LAT)
         binding = "loopback"
         xt = False
     else:
